@@ -408,6 +408,8 @@ def to_poly(v, relations=None):
             if set(b) <= {()} and b.get((), 0) != 0:
                 return {m: c / b[()] for m, c in to_poly(v[2]).items()}
             raise NotPolynomial("division by a non-constant: %r" % (v[3],))
+        if op.startswith("cast:f"):
+            return to_poly(v[2])       # int -> float conversion of a symbolic integer: exact for the magnitudes of interest
         return {("?%r" % (v,),): Fraction(1)}
     if v[0] == "unknown":
         raise NotPolynomial("unknown value")
@@ -444,3 +446,50 @@ def interp(prog, models=None, oracle=None):
     m = dict(ALG_MODELS)
     m.update(models or {})
     return A.Interp(prog, oracle=oracle, models=m, fuel=2000000, max_depth=64)
+
+
+def to_ratio(v):
+    """value -> (numerator polynomial, denominator polynomial)"""
+    one = {(): Fraction(1)}
+    if isinstance(v, tuple) and v[0] == "symop" and v[1] in ("Add", "Sub", "Mul", "Div", "Neg"):
+        op = v[1]
+        if op == "Neg":
+            n, d = to_ratio(v[2])
+            return ({m: -c for m, c in n.items()}, d)
+        (n1, d1), (n2, d2) = to_ratio(v[2]), to_ratio(v[3])
+        if op == "Mul":
+            return (P.pmul(n1, n2), P.pmul(d1, d2))
+        if op == "Div":
+            return (P.pmul(n1, d2), P.pmul(d1, n2))
+        a, b = P.pmul(n1, d2), P.pmul(n2, d1)
+        if op == "Sub":
+            b = {m: -c for m, c in b.items()}
+        return (P.padd(a, b), P.pmul(d1, d2))
+    if isinstance(v, tuple) and v[0] == "symop" and v[1].startswith("cast:f"):
+        return to_ratio(v[2])
+    return (to_poly(v), one)
+
+
+def ratio_eq(a, b):
+    """a, b: (num, den) pairs; equality as rational functions"""
+    return P.pmul(a[0], b[1]) == P.pmul(b[0], a[1])
+
+
+def m_recip(it, args, callee, depth):
+    x = A.deref_all(it, args[0])
+    return ("symop", "Div", ("f", 1.0), x)
+
+
+ALG_MODELS["f32>::recip"] = m_recip
+
+
+def m_abs(it, args, callee, depth):
+    x = A.deref_all(it, args[0])
+    if isinstance(x, tuple) and x[0] == "f":
+        return ("f", abs(x[1]))
+    return ("symop", "abs", x, None)
+
+
+ALG_MODELS["f32>::abs"] = m_abs
+for _k in ("$float::fallback::abs", "$::fabsf", "$float::mm::abs", "$float::libm::abs", "$float::f32::abs"):
+    ALG_MODELS[_k] = m_abs
